@@ -76,10 +76,16 @@ static std::string oracle(Cfg const& c, Result const& r, long double* objOut, lo
 		long double primal = 0.5L * quad + c.p1 * hinge;
 		// the solver's matrix holds the differences of kernel values rounded to the cache type: exact for integer points with
 		// the linear kernel and for the double cache, float-accurate otherwise
-		long double tol = ((c.dbl || c.kern == "lin") ? 1e-9L : 1e-6L) * (1 + scale + c.p1 * P + c.p1 * hinge);
+		long double tol = 1e-9L * (1 + scale + c.p1 * P + c.p1 * hinge);
+		if(!c.dbl && c.kern != "lin"){
+			// every entry of the difference matrix (four kernel values <= 1, combined and stored in float) is off by up to ~3e-7,
+			// so a^T Q a as the solver sees it is off by up to 3e-7 (sum_p a_p)^2, with sum_p a_p = value + 1/2 c^T K c
+			long double suma = std::fabs((long double)r.value) + 0.5L * std::fabs(quad);
+			tol += 3e-7L * suma * suma + 1e-6L * (1 + scale);
+		}
 		*objOut = primal; *widthOut = c.p1 * P;
 		if(std::fabs(sumc) > tol) os << " !oracle ranking-coefficients-sum(" << (double)sumc << ")";
-		if((long double)r.value > primal + tol) os << " !oracle weak-duality(" << std::setprecision(17) << r.value << " > " << (double)primal << ")";
+		if((long double)r.value > primal + tol) os << " !oracle weak-duality" << (acc ? "" : "-unconverged") << "(" << std::setprecision(17) << r.value << " > " << (double)primal << ")";
 		if(acc && primal - (long double)r.value > c.eps * c.p1 * P + tol) os << " !oracle duality-gap(" << (double)(primal - r.value) << ")";
 		return os.str();
 	}
